@@ -1086,7 +1086,7 @@ impl Compiler {
         if !params.is_empty() {
             func_compiler
                 .builder
-                .reserve_registers(params.len() as u8)?;
+                .reserve_registers(Self::register_span(params.len(), "parameters")?)?;
         }
 
         // Compile parameter declarations
@@ -2019,7 +2019,7 @@ impl Compiler {
         if !ctor.params.is_empty() {
             func_compiler
                 .builder
-                .reserve_registers(ctor.params.len() as u8)?;
+                .reserve_registers(Self::register_span(ctor.params.len(), "parameters")?)?;
         }
 
         // Compile parameter declarations inline (same as compile_function_body)
